@@ -28,6 +28,7 @@ struct NB {
   1: optional i32 a
   2: optional i32 b (api.query="qb")
   3: optional string c (api.header="hc")
+  4: optional string d (api.query="qd", api.header="hd", api.cookie="cd")
 }
 struct Req {
   1: NB nb (api.no_body_struct="")
@@ -40,13 +41,14 @@ service Svc {
 
 type nbScenario struct {
 	hasB, hasC bool
+	dSrc       int // bit 0: query qd=dq present, bit 1: header hd=dh, bit 2: cookie cd=dc (member d lists them in this order)
 	body       string // "", {"u":7}, {"nb":{"a":5,"b":6},"u":7}
 	fallback   bool
 	writeDef   bool
 }
 
 func (s nbScenario) String() string {
-	return fmt.Sprintf("api.no_body_struct: query qb present=%v, header hc present=%v, body=%q, ReadHttpValueFallback=%v WriteDefaultField=%v", s.hasB, s.hasC, s.body, s.fallback, s.writeDef)
+	return fmt.Sprintf("api.no_body_struct: query qb present=%v, header hc present=%v, sources of d (query qd, header hd, cookie cd) present=%03b, body=%q, ReadHttpValueFallback=%v WriteDefaultField=%v", s.hasB, s.hasC, s.dSrc, s.body, s.fallback, s.writeDef)
 }
 
 func enumNoBody(g groupDef, tier string, yield func(core.Case) bool) {
@@ -55,8 +57,9 @@ func enumNoBody(g groupDef, tier string, yield func(core.Case) bool) {
 		for _, hb := range bools {
 			for _, hc := range bools {
 				for _, fb := range bools {
-					for _, wd := range bools {
-						s := nbScenario{hasB: hb, hasC: hc, body: body, fallback: fb, writeDef: wd}
+					for wdd := 0; wdd < 16; wdd++ {
+						wd := wdd&1 == 1
+						s := nbScenario{hasB: hb, hasC: hc, body: body, fallback: fb, writeDef: wd, dSrc: wdd >> 1}
 						c := core.Case{Tag: "j2t-http-nobody", Desc: func() interface{} { return caseDesc{Group: g.name, Scenario: s.String(), IDL: noBodyIDL, Body: s.body} },
 							Run: func() core.Result { return runNoBody(s) }}
 						if !yield(c) {
@@ -82,6 +85,9 @@ func runNoBody(s nbScenario) core.Result {
 		if s.hasB {
 			q.Set("qb", "42")
 		}
+		if s.dSrc&1 != 0 {
+			q.Set("qd", "dq")
+		}
 		u := baseURL
 		if len(q) > 0 {
 			u += "?" + q.Encode()
@@ -96,6 +102,12 @@ func runNoBody(s nbScenario) core.Result {
 		}
 		if s.hasC {
 			hr.Header.Set("hc", "cval")
+		}
+		if s.dSrc&2 != 0 {
+			hr.Header.Set("hd", "dh")
+		}
+		if s.dSrc&4 != 0 {
+			hr.AddCookie(&stdhttp.Cookie{Name: "cd", Value: "dc"})
 		}
 		req, err := dhttp.NewHTTPRequestFromStdReq(hr)
 		if err != nil {
@@ -135,6 +147,21 @@ func runNoBody(s nbScenario) core.Result {
 			r.Add("j2t-http|"+cell+"|wrong-member-value", "%s: nb.c is %v, header hc=cval", s, c)
 		case !s.hasC && c != nil && !(c.T == tbin.STRING && len(c.S) == 0):
 			r.Add("j2t-http|"+cell+"|wrong-member-value", "%s: nb.c is %v without a header value (absent or \"\" expected)", s, c)
+		}
+		// member d lists three sources: the first listed one that has a value decides
+		wantD := ""
+		for i, v := range []string{"dq", "dh", "dc"} {
+			if s.dSrc>>uint(i)&1 == 1 {
+				wantD = v
+				break
+			}
+		}
+		dcell := fmt.Sprintf("no_body_struct,member-with-sources(query,header,cookie)=%03b", s.dSrc)
+		switch d := nb.FieldByID(4); {
+		case wantD != "" && (d == nil || d.T != tbin.STRING || string(d.S) != wantD):
+			r.Add("j2t-http|"+dcell+"|wrong-member-value", "%s: nb.d is %v, the first listed source with a value says %q", s, d, wantD)
+		case wantD == "" && d != nil && !(d.T == tbin.STRING && len(d.S) == 0):
+			r.Add("j2t-http|"+dcell+"|wrong-member-value", "%s: nb.d is %v although none of its sources has a value (absent or \"\" expected)", s, d)
 		}
 		if s.body != "" {
 			if uu := root.FieldByID(2); uu == nil || uu.I != 7 {
